@@ -89,6 +89,8 @@ type pathState struct {
 	sched    []int
 	tags     []string
 	wantSample bool
+	concCache  map[int]uint64 // term id -> value fixed on this path
+	condCache  map[int]bool   // cond term id -> side taken on this path
 }
 
 var P *pathState
@@ -97,6 +99,8 @@ func newPath(prefix []Choice, solver *Solver) *pathState {
 	p := &pathState{prefix: prefix, solver: solver}
 	p.res = &PathResult{Asserts: map[string]int{}, Reached: map[string]int{}, Covered: map[string]bool{}, CoverSeen: map[string]bool{}, Notes: map[string]string{}}
 	p.maxDec = 200000
+	p.concCache = map[int]uint64{}
+	p.condCache = map[int]bool{}
 	return p
 }
 
@@ -149,6 +153,20 @@ func (p *pathState) branch(cond *Term, kind string) bool {
 	if p.concrete {
 		panic(engineError{"symbolic branch in concrete mode"})
 	}
+	if side, ok := p.condCache[cond.id]; ok {
+		return side
+	}
+	if cond.op == "not" {
+		if side, ok := p.condCache[cond.args[0].id]; ok {
+			return !side
+		}
+	}
+	res := p.branch1(cond, kind)
+	p.condCache[cond.id] = res
+	return res
+}
+
+func (p *pathState) branch1(cond *Term, kind string) bool {
 	d := len(p.trace)
 	if d < len(p.prefix) {
 		c := p.prefix[d]
@@ -196,6 +214,15 @@ func (p *pathState) concretize(t *Term, kind string) uint64 {
 	if p.concrete {
 		panic(engineError{"symbolic value in concrete mode"})
 	}
+	if v, ok := p.concCache[t.id]; ok {
+		return v
+	}
+	v := p.concretize1(t, kind)
+	p.concCache[t.id] = v
+	return v
+}
+
+func (p *pathState) concretize1(t *Term, kind string) uint64 {
 	w := t.sort.w
 	for n := 0; ; n++ {
 		if n > 4096 {
